@@ -179,9 +179,58 @@ def job(cfg):
                                           dict(cfg, mode=mode, entry="scaled", label=p.label, ham=hl, point=pt, tol=10 * tol, scale=sc),
                                           dict(impl=Es[bad], ref=E_ref[bad], err=float(es[bad]), walker_scale=sc))
         res.guard("grid_points_" + mode, P)
+    if kind == "noci" and "u" in modes and cfg["variant"] in ("", "nonorth") and not lite:
+        near_component_node(cfg, tc, sec, res)
     res.sample(dict(kind=kind, n=n, nelec=[na, nb], variant=cfg["variant"], modes=modes, n_param_sets=len(tc.params),
                     n_hamiltonians=len(hams), ham_labels=[h[0] for h in hams][:8]))
     return res
+
+
+def near_component_node(cfg, tc, sec, res):
+    """Walkers that are (nearly) orthogonal to ONE determinant of a multi-determinant NOCI trial while their overlap with
+    the whole trial is ordinary: the property's 'non-vanishing overlap' is about the trial, not about its components,
+    and c_i <D_i|H|phi> stays of order one when <D_i|phi> -> 0.  Found by moving generic walkers along a fixed complex
+    direction to within 1e-9 (relative) of the nearest zero of the determinant-0 overlap polynomial."""
+    kind, n, na, nb, seed = cfg["kind"], cfg["n"], cfg["na"], cfg["nb"], cfg["seed"]
+    p = tc.params[-1]
+    trial = gridmc.trial_for(tc, len(tc.params) - 1)
+    ex = p.extra
+    ket0 = fock.ket_uhf(n, na, nb, ex["dets_up"][0], ex["dets_dn"][0])
+    grid = al.walker_grid(n, na, nb, seed, restricted=False, cap=3)
+    Wa, Wb, _ = gridmc.lab_walkers(tc, grid, False)
+    rd = np.random.default_rng(313 + seed)
+    deg = na + nb
+    tk = 0.7 * np.exp(2j * np.pi * np.arange(2 * deg + 3) / (2 * deg + 3))
+    Xa, Xb = [], []
+    for k in sorted(set([1, grid["P"] // 2, grid["P"] - 2])):
+        Da = rd.normal(size=Wa[k].shape) + 1j * rd.normal(size=Wa[k].shape)
+        Db = rd.normal(size=Wb[k].shape) + 1j * rd.normal(size=Wb[k].shape)
+        ov0 = lambda t: np.conj(ket0) @ sec.walker_vectors((Wa[k] + t * Da)[None], (Wb[k] + t * Db)[None])[:, 0]
+        roots = np.roots(np.polyfit(tk, np.array([ov0(t) for t in tk]), deg))
+        t0 = roots[np.argmin(np.abs(roots))]
+        for delta in (1e-9, 1e-4):
+            Xa.append(Wa[k] + t0 * (1 - delta) * Da)
+            Xb.append(Wb[k] + t0 * (1 - delta) * Db)
+    Xa, Xb = np.array(Xa), np.array(Xb)
+    Phi = sec.walker_vectors(Xa, Xb)
+    O = np.conj(p.ket) @ Phi
+    O0 = np.conj(ket0) @ Phi
+    norm = np.linalg.norm(Phi, axis=0) * np.linalg.norm(p.ket)
+    ok = np.abs(O) / norm > 1e-2  # ordinary overlap with the whole trial
+    res.guard("walkers_near_a_node_of_one_component", int((ok & (np.abs(O0) < 1e-7 * np.abs(O))).sum()))
+    h0, h1, chol = al.small_ham(n, 2, seed, spin_dependent=True, scale=0.5)
+    H = sec.hamiltonian(h0, h1, chol)
+    E_ref = ((np.conj(p.ket) @ H) @ Phi) / O
+    hd = gridmc.build_ham_data(n, h0, h1, chol, trial, p.wave_data)
+    E = eval_energy(trial, p.wave_data, hd, "u", "batched", Xa, Xb, na, nb)
+    err = np.abs(E - E_ref) / max(1.0, np.abs(E_ref[ok]).max() if ok.any() else 1.0)
+    err = np.where(np.isfinite(E), err, np.inf)
+    res.add(states=int(ok.sum()), transitions=int(ok.sum()), evaluations=int(ok.sum()), traces=int(ok.sum()))
+    for i in np.nonzero(ok)[0]:
+        if not err[i] <= 1e-5:
+            res.violation("noci/u/energy/walker-near-a-node-of-one-determinant", dict(cfg, mode="u", entry="component-node", label=p.label, point=int(i)),
+                          dict(impl=E[i], ref=E_ref[i], err=float(err[i]), component_overlap_over_total=float(np.abs(O0[i]) / np.abs(O[i]))))
+            break
 
 
 def job_eps_ladder(cfg):
@@ -242,7 +291,7 @@ def run(ctx):
         lad += [dict(kind=k, n=4, na=2, nb=2, variant=("ref:3" if k == "multislater" else ""), seed=ctx.seed, tier=ctx.tier)
                 for k in sorted(trials.AUTO_KINDS)]
     ctx.pmap(job_eps_ladder, lad, tasks_per_child=2)
-    ctx.require_guard("grid_points_u", "grid_points_r", "ladder_points_live")
+    ctx.require_guard("grid_points_u", "grid_points_r", "ladder_points_live", "walkers_near_a_node_of_one_component")
 
 
 def replay(case):
@@ -251,6 +300,12 @@ def replay(case):
         r = job({k: v for k, v in cfg.items() if k not in ("mode", "entry", "label", "ham", "point", "tol", "scale", "n_batch")})
         v = [x for x in r.violations if "scale-invariant" in x["signature"]]
         return (len(v) > 0, {"violations": [x["detail"] for x in v][:1]})
+    if cfg.get("entry") == "component-node":
+        c0 = {k: v for k, v in cfg.items() if k not in ("mode", "entry", "label", "point")}
+        r = Result()
+        near_component_node(c0, trials.build(c0["kind"], c0["n"], c0["na"], c0["nb"], c0["seed"], c0["variant"], full_basis=False),
+                            fock.sector(c0["n"], c0["na"], c0["nb"]), r)
+        return (len(r.violations) > 0, {"violations": [x["detail"] for x in r.violations][:1]})
     if cfg.get("entry") == "eps-ladder":
         r = job_eps_ladder(cfg)
         return (len(r.violations) > 0, {"violations": [v["detail"] for v in r.violations]})
